@@ -7,6 +7,12 @@ mc.models.versyntax under both readings of the hyphen rule, body not starting or
 plus the structured set S (epoch x upstream x revision spellings of "the same" version).  Every unordered
 pair {a, b} of U_n + S is executed in both directions; every triple of T = U_2 + S-core is evaluated.
 
+Second set S2 (own work units, listed first): versions whose upstream part contains a colon (epochs x upstreams
+x revisions, so that (x, y:z) and (x:y, z) meet in both orders) and numeric boundaries (digit runs of 17-25
+characters with and without leading zeros, equal values that differ only in leading zeros, neighbours such as
+...09 / ...10, values around 2**53, 2**63 and 2**64; in upstream and in revision position).  Every unordered pair
+of S2 and every pair of S2 x K (K = a core of the old space) is executed in both directions.
+
 Oracle per ordered pair (x, y): version_compare(x, y) and the six rich comparisons of Version objects
 equal the sign given by mc.models.dpkgver (key order, asserted equal to the verrevcmp transliteration);
 exactly one of <, ==, > and <=, !=, >= consistent with them; version_compare(a, b) == -version_compare(b, a);
@@ -20,11 +26,15 @@ from ..models import dpkgver, versyntax
 ID = "C03"
 LEVEL = "model_checking"
 RULE = ("states = valid version strings in the space (U_n + S, enumerated by walking all strings over the alphabet and "
-        "keeping those the recogniser calls valid); transitions = ordered pairs (x, y) compared; traces = ordered pairs "
+        "keeping those the recogniser calls valid, plus the strings of S2 - colon-in-upstream versions and numeric "
+        "boundaries - that are not already in U_n + S); transitions = ordered pairs (x, y) compared; traces = ordered pairs "
         "executed on the implementation (version_compare + six operators + hashes) plus ordered pairs executed for the "
         "triple matrices; evaluations = ordered pairs + triples evaluated against the oracle; non-trivial = unordered "
         "pairs of different spellings that are equal versions, or whose order is decided by a rule other than a plain "
-        "same-kind difference ('~' or a letter against another kind, the end of a part against anything)")
+        "same-kind difference ('~' or a letter against another kind, the end of a part against anything); the pairs are "
+        "all of (U_n + S)^2, S2^2 and S2 x K (K = core of U_n + S), each unordered pair owned by exactly one work unit; the "
+        "S2 units come first in the unit list (a failure that depends on earlier comparisons is then found early by "
+        "the runner's sequential replay) and violations are ranked by the length of the pair")
 BUDGET = {"quick": 240, "thorough": 3000}
 
 SIGMA = "019aB.+~-:"
@@ -41,6 +51,20 @@ CROSS_EXTRA = ["9", "B", "+", "19", "91", "aB", "Ba", ".+", "+.", "a+", "+a", "B
                "1.0-1-2", "10:a1-~", "00:1.0", "1.0-00", "1.a", "1.0a", "1.0+", "1.0.a"]
 TRIPLE_UNITS = 24
 
+# S2, part (a): a colon inside the upstream part (legal only together with an epoch).  va + ":" + vb style
+# collisions between (x, y:z) and (x:y, z) need both kinds of operand; '2' is never produced by the seed rotation.
+S2_EPOCHS = ["1:", "0:"]
+S2_COLON_UPSTREAMS = ["1", "2", "1:1", "1:2", "2:1", "1:1:2", "1:2:1"]
+S2_REVISIONS = ["", "-1"]
+# S2, part (b): digit runs.  Not rotated by the seed (only the prefix in front of them is).
+S2_SMALL_RUNS = ["0", "1", "2", "9", "10"]
+S2_RUN_LENGTHS = [17, 18, 19, 20, 25]
+S2_POWER_RUNS = [str(v) for v in (2 ** 53, 2 ** 53 + 1, 2 ** 63 - 1, 2 ** 63, 2 ** 64 - 1, 2 ** 64)]
+S2_UPSTREAM_PREFIX = "1."          # run in upstream position: 1.<run>
+S2_REVISION_PREFIX = "1.0-"        # run in revision position: 1.0-<run>
+# K: the strings of U_n + S every S2 string is compared with
+K_EXTRA = ["0", "1", "9", "a", "B", ".", "+", "~", "10", "1:1", "0:1", "1-1"]
+
 selfcheck_result = {}
 _CACHE = {}
 
@@ -53,7 +77,18 @@ def bounds(tier):
     n = n_for(tier)
     return {"alphabet": list(SIGMA), "max_length": n, "U_n": "all valid strings of length <= %d" % n,
             "S": "%d epochs x %d upstreams x %d revisions" % (len(S_EPOCHS), len(S_UPSTREAMS), len(S_REVISIONS)),
-            "pairs": "all unordered pairs of U_n + S, both directions", "triples": "all triples of U_2 + S-core"}
+            "pairs": "all unordered pairs of U_n + S, both directions", "triples": "all triples of U_2 + S-core",
+            "S2_colon": "%d epochs %r x %d upstreams %r x %d revisions %r" % (
+                len(S2_EPOCHS), S2_EPOCHS, len(S2_COLON_UPSTREAMS), S2_COLON_UPSTREAMS, len(S2_REVISIONS), S2_REVISIONS),
+            "S2_numeric": "%d digit runs: %r; for each length L in %r: 10**(L-1), 10**(L-1)+9, 10**(L-1)+10, 10**L-1 "
+                          "(no leading zeros) and 0, 1, 9, 10, 10**(L-1)-1, 10**(L-2) padded with zeros to L digits; "
+                          "2**53, 2**53+1, 2**63-1, 2**63, 2**64-1, 2**64 (upstream position only); every run as %s<run> "
+                          "and as %s<run>" % (len(s2_runs()), S2_SMALL_RUNS, S2_RUN_LENGTHS, S2_UPSTREAM_PREFIX,
+                                              S2_REVISION_PREFIX),
+            "S2": "%d strings" % len(s2_raw({})),
+            "K": "%d strings of U_n + S: S-core%s + %r" % (len(k_raw(tier)), "" if tier == "quick" else " + U_2", K_EXTRA),
+            "S2_pairs": "all unordered pairs of S2 and all pairs S2 x K, both directions (pairs already in (U_n + S)^2 "
+                        "are left to the units of that space)"}
 
 
 def assumptions():
@@ -63,7 +98,11 @@ def assumptions():
             "that start or end with '-' are outside the space (dpkg rejects them, the class accepts them, the statement "
             "is silent - see C14)",
             "Version is NativeVersion (python-apt is not installed)",
-            "the seed rotates the non-zero digits and the letters; '0' and the punctuation are never rotated"]
+            "the seed rotates the non-zero digits and the letters; '0' and the punctuation are never rotated; in S2 the "
+            "digit '2' and the long digit runs are not rotated (the prefix in front of a run is)",
+            "S2 is compared with itself and with the core K only, not with all of U_n + S (the pair space is quadratic)",
+            "dpkg compares digit runs of any length digit by digit (no machine integer); the model does the same and "
+            "a sample of S2 is cross-checked against dpkg --compare-versions in every run"]
 
 
 def translation(seed):
@@ -101,6 +140,33 @@ def structured(epochs, upstreams, revisions):
     return sorted(out, key=len)        # stable: simplest first, product order within a length
 
 
+def s2_runs():
+    out = list(S2_SMALL_RUNS)
+    for n in S2_RUN_LENGTHS:
+        out += ["1" + "0" * (n - 1), "1" + "0" * (n - 3) + "09", "1" + "0" * (n - 3) + "10", "9" * n,      # no leading zeros
+                "0" * n, "0" * (n - 1) + "1", "0" * (n - 2) + "09", "0" * (n - 2) + "10",             # small, padded
+                "0" + "9" * (n - 1), "01" + "0" * (n - 2)]                                             # large, one zero
+    assert len(set(out)) == len(out)
+    return out
+
+
+def s2_raw(tr):
+    """S2 in canonical order: the colon set (translated), then the runs in upstream and in revision position"""
+    colon = [s.translate(tr) for s in structured(S2_EPOCHS, S2_COLON_UPSTREAMS, S2_REVISIONS)]
+    runs = s2_runs()
+    up, rev = S2_UPSTREAM_PREFIX.translate(tr), S2_REVISION_PREFIX.translate(tr)
+    out = colon + [up + r for r in runs + S2_POWER_RUNS] + [rev + r for r in runs]
+    assert len(set(out)) == len(out) and all(in_space(s) for s in out)
+    return out
+
+
+def k_raw(tier):
+    out = structured(CORE_EPOCHS, CORE_UPSTREAMS, CORE_REVISIONS)
+    if tier != "quick":
+        out = enumerate_u(2)[0] + out
+    return out + [s for s in K_EXTRA if s not in out]
+
+
 def space(tier, seed):
     key = (tier, seed)
     if key not in _CACHE:
@@ -114,8 +180,14 @@ def space(tier, seed):
         tset = u2 + [s for s in structured(CORE_EPOCHS, CORE_UPSTREAMS, CORE_REVISIONS) if s not in seen2]
         tset = [s.translate(tr) for s in tset]
         assert len(set(strings)) == len(strings) and len(set(tset)) == len(tset)
+        old = set(strings)
+        s2 = s2_raw(tr)
+        core_k = [s.translate(tr) for s in k_raw(tier)]
+        assert len(set(core_k)) == len(core_k) and all(s in old for s in core_k)
         _CACHE[key] = {"strings": strings, "keys": [dpkgver.key(s) for s in strings], "walked": walked,
-                       "n_u": len(u), "tset": tset, "objs": None, "tobjs": None}
+                       "n_u": len(u), "tset": tset, "objs": None, "tobjs": None,
+                       "s2": s2, "s2keys": [dpkgver.key(s) for s in s2], "s2old": [s in old for s in s2], "s2objs": None,
+                       "k": core_k, "kkeys": [dpkgver.key(s) for s in core_k], "kobjs": None}
     return _CACHE[key]
 
 
@@ -130,12 +202,25 @@ def cross_strings(seed):
     return [s.translate(tr) for s in out]
 
 
+CROSS_S2 = 28
+
+
+def cross_s2(sp):
+    """every 5th string of S2 (colon set, runs in both positions) + three strings of K: ~31 strings, ~1000 dpkg calls"""
+    s2 = sp["s2"]
+    step = max(1, len(s2) // CROSS_S2)
+    return s2[::step] + [s for s in sp["k"][:3] if s not in s2]
+
+
 def selfcheck(tier, seed):
     sp = space(tier, seed)
     res = {"key_order_equals_verrevcmp_pairs": dpkgver.internal_check(sp["tset"]),
            "space": {"strings_walked": sp["walked"], "U": sp["n_u"], "S_not_in_U": len(sp["strings"]) - sp["n_u"],
                      "triple_set": len(sp["tset"])}}
+    res["space"].update({"S2": len(sp["s2"]), "S2_also_in_U_or_S": sum(sp["s2old"]), "K": len(sp["k"])})
+    res["S2_key_order_equals_verrevcmp_pairs"] = dpkgver.internal_check(sp["s2"])
     res["dpkg"] = dpkgver.crosscheck_dpkg(cross_strings(seed))
+    res["dpkg_S2"] = dpkgver.crosscheck_dpkg(cross_s2(sp))
     return res
 
 
@@ -156,13 +241,16 @@ def _units(tier, seed):
     res = selfcheck(tier, seed)
     selfcheck_result.clear()
     selfcheck_result.update(res)
-    if res["dpkg"]["available"] and res["dpkg"]["agree"] != res["dpkg"]["pairs"]:
-        # the reference model is wrong: a harness bug, never a verdict (core would turn an exception into exit 1)
-        import sys
-        sys.stderr.write("HARNESS-ERROR: mc.models.dpkgver disagrees with dpkg --compare-versions: %r\n"
-                         % (res["dpkg"]["disagreements"],))
-        raise SystemExit(3)
-    out = [{"k": "pairs", "row": i} for i in range(len(sp["strings"]))]
+    for name in ("dpkg", "dpkg_S2"):
+        if res[name]["available"] and res[name]["agree"] != res[name]["pairs"]:
+            # the reference model is wrong: a harness bug, never a verdict (core would turn an exception into exit 1)
+            import sys
+            sys.stderr.write("HARNESS-ERROR: mc.models.dpkgver disagrees with dpkg --compare-versions: %r\n"
+                             % (res[name]["disagreements"],))
+            raise SystemExit(3)
+    # S2 rows first: see RULE
+    out = [{"k": "s2", "row": i} for i in range(len(sp["s2"]))]
+    out += [{"k": "pairs", "row": i} for i in range(len(sp["strings"]))]
     n = len(sp["tset"])
     per = -(-n // TRIPLE_UNITS)
     out += [{"k": "triples", "rows": [lo, min(lo + per, n)]} for lo in range(0, n, per)]
@@ -170,6 +258,8 @@ def _units(tier, seed):
 
 
 def unit_cost(u, tier):
+    if u["k"] == "s2":
+        return 200000 - u["row"]         # small, but started first (on fresh workers)
     if u["k"] == "pairs":
         return 100000 - u["row"]
     return 30000
@@ -261,6 +351,8 @@ def run_unit(u, tier, seed):
     sp = space(tier, seed)
     if u["k"] == "pairs":
         return unit_pairs(part, sp, u["row"])
+    if u["k"] == "s2":
+        return unit_s2(part, sp, u["row"])
     return unit_triples(part, sp, u["rows"])
 
 
@@ -278,29 +370,23 @@ def _objs(sp, which, strings, part=None):
     return sp[which]
 
 
-def unit_pairs(part, sp, i):
+def _row(part, a, A, ka, strings, objs, keys, start, self_index=-1, skip=None):
+    """Compare a with strings[start:] (both directions each; strings[self_index] is a itself; indexes for which
+    skip[j] is true belong to another work unit).  Shared by the units of U_n + S and of S2."""
     from debian.debian_support import version_compare
-    strings, keys = sp["strings"], sp["keys"]
-    objs = _objs(sp, "objs", strings)
-    a, A, ka = strings[i], objs[i], keys[i]
-    part.states += 1
-    if i == 0:
-        part.extra["strings_walked_by_the_enumerator"] += sp["walked"]
-    if isinstance(A, Exception):
-        part.violation("construct/raises/" + type(A).__name__, {"k": "pair", "a": a, "b": a},
-                       "Version(%r) is constructed" % a, "%s: %s" % (type(A).__name__, A))
-        return part
     explain = dpkgver.explain
     classes = {}
     n_ordered = 0
-    for j in range(i, len(strings)):
+    for j in range(start, len(strings)):
+        if skip is not None and skip[j]:
+            continue
         b, B, kb = strings[j], objs[j], keys[j]
         if isinstance(B, Exception):
-            continue                      # reported by row j
+            continue                      # reported by the row that owns b
         c, comp, why = explain(a, b)
         if c != (ka > kb) - (ka < kb):
             raise AssertionError("dpkgver: compare(%r, %r) = %d but the key order differs" % (a, b, c))
-        if j == i:
+        if j == self_index:
             B = construct(a)              # a second object for the reflexive pair
         # fast path: everything as predicted; anything else is diagnosed by run_pair (shared with replay)
         try:
@@ -316,22 +402,64 @@ def unit_pairs(part, sp, i):
                 bad = [("order/history-dependent", "stable answers for (%r, %r)" % (a, b),
                         "the batched comparison disagreed with the model, the repeated one did not")]
             for sig, exp, obs in bad:
-                part.violation(sig, {"k": "pair", "a": a, "b": b}, exp, obs)
-        n_ordered += 1 if j == i else 2
+                part.violation(sig, {"k": "pair", "a": a, "b": b}, exp, obs, rank=len(a) + len(b))
+        n_ordered += 1 if j == self_index else 2
         k = (c, comp, why)
         classes[k] = classes.get(k, 0) + 1
-        if j != i:
+        if j != self_index:
             k = (-c, comp, why)
             classes[k] = classes.get(k, 0) + 1
             if c == 0 or "-vs-" in why:
                 part.nontrivial += 1
-        if j in (i, len(strings) - 1) and i % 97 == 0:
-            part.sample({"k": "pair", "a": a, "b": b})
     part.transitions += n_ordered
     part.traces += n_ordered
     part.evaluations += n_ordered
     for (c, comp, why), n in classes.items():
         part.outcomes["%s/%s/%s" % (WORD[c], comp, why)] += n
+    return n_ordered
+
+
+def _construct_failed(part, a, A):
+    part.violation("construct/raises/" + type(A).__name__, {"k": "pair", "a": a, "b": a},
+                   "Version(%r) is constructed" % a, "%s: %s" % (type(A).__name__, A), rank=2 * len(a))
+
+
+def unit_pairs(part, sp, i):
+    strings, keys = sp["strings"], sp["keys"]
+    objs = _objs(sp, "objs", strings)
+    a, A, ka = strings[i], objs[i], keys[i]
+    part.states += 1
+    if i == 0:
+        part.extra["strings_walked_by_the_enumerator"] += sp["walked"]
+    if isinstance(A, Exception):
+        _construct_failed(part, a, A)
+        return part
+    _row(part, a, A, ka, strings, objs, keys, i, self_index=i)
+    if i % 97 == 0:
+        part.sample({"k": "pair", "a": a, "b": a})
+        part.sample({"k": "pair", "a": a, "b": strings[-1]})
+    return part
+
+
+def unit_s2(part, sp, i):
+    """Row i of S2: S2[i] against S2[i:] and against K.  A pair of two strings that are both in U_n + S belongs to
+    the units of that space, so each unordered pair of the whole space is executed by exactly one unit."""
+    s2, keys, old = sp["s2"], sp["s2keys"], sp["s2old"]
+    objs = _objs(sp, "s2objs", s2)
+    a, A, ka = s2[i], objs[i], keys[i]
+    if not old[i]:
+        part.states += 1
+    if isinstance(A, Exception):
+        if not old[i]:
+            _construct_failed(part, a, A)
+        return part
+    n = _row(part, a, A, ka, s2, objs, keys, i, self_index=i, skip=old if old[i] else None)
+    part.extra["S2 x S2 ordered pairs"] += n
+    if not old[i]:
+        n = _row(part, a, A, ka, sp["k"], _objs(sp, "kobjs", sp["k"]), sp["kkeys"], 0)
+        part.extra["S2 x K ordered pairs"] += n
+    if i % 29 == 0:
+        part.sample({"k": "pair", "a": a, "b": s2[-1 - i // 2]})
     return part
 
 
